@@ -57,6 +57,10 @@ func projects() []*project {
 			About:     "follow-schema exec where two schema files in different directories share the base name common.graphql and contribute only interfaces/unions/enums/directives",
 			Files:     readTree(filepath.Join(td, "samebase")),
 			StartDirs: [3]string{".", "schema", "schema/core"}},
+		{Name: "fedcomp", Quick: false,
+			About:     "federation v2 with computed_requires (schema mutated for @requires fields), single and multi entity resolvers",
+			Files:     readTree(filepath.Join(td, "fedcomp")),
+			StartDirs: [3]string{".", "graph", "graph/model"}},
 		{Name: "exec", Quick: false,
 			About:     "/verif/probes/exec (single-file exec, generated models, stubgen plugin)",
 			Files:     probe.ReadProbe("exec"),
